@@ -90,13 +90,19 @@ def reject_cond(under, v):
 # ------------------------------------------------------------------------------ declarations
 
 class Method:
-    def __init__(self, name, recv, params, ret, body_src, body_coq="[]"):
+    def __init__(self, name, recv, params, ret, body_src, body_coq="[]", is_async=False, decorators=(), defaults=None, abstract=False):
         self.name, self.recv, self.params, self.ret = name, recv, params, ret   # params: [(pname, Ty)]
         self.body_src, self.body_coq = body_src, body_coq                        # ret: Ty
+        self.is_async, self.decorators, self.defaults, self.abstract = is_async, decorators, defaults or {}, abstract
 
     def src(self):
-        ps = (["self"] if self.recv else []) + ["%s: %s" % (n, t.src()) for n, t in self.params]
-        return ["    def %s(%s) -> %s:" % (self.name, ", ".join(ps), self.ret.src())] + ["        " + l for l in self.body_src]
+        ps = (["self"] if self.recv else []) + \
+             ["%s: %s%s" % (n, t.src(), (" = " + self.defaults[n]) if n in self.defaults else "") for n, t in self.params]
+        head = "    %sdef %s(%s) -> %s:" % ("async " if self.is_async else "", self.name, ", ".join(ps), self.ret.src())
+        decs = ["    @%s" % d for d in self.decorators]
+        if self.abstract:
+            return decs + [head + " ..."]
+        return decs + [head] + ["        " + l for l in self.body_src]
 
     def coq(self, spans):
         ps = "; ".join(t.coq(spans) for _, t in self.params)
@@ -166,6 +172,24 @@ def hook_method(T, under, name, kind="ok", ptype=None, retname="Result"):
     if kind == "other":
         return Method(name, False, [("v", pt)], Ty(retname, [Ty("Plain" + under.capitalize()), STR]),
                       ["return Ok(Plain%s(v))" % under.capitalize()])
+    if kind == "zero":
+        return Method(name, False, [], res, ["return Ok(%s(%s))" % (T, lit_src(under, 1))])
+    if kind == "three":
+        return Method(name, False, [("v", pt), ("w", INT), ("z", INT)], res, ["return Ok(%s(v))" % T])
+    if kind == "onearg":        # Result[T] with one type argument (accepted: args non-empty); body abstract
+        return Method(name, False, [("v", pt)], Ty(retname, [Ty(T)]), [], abstract=True)
+    if kind == "async":
+        return Method(name, False, [("v", pt)], res, body_ok, is_async=True)
+    if kind == "decorated":
+        return Method(name, False, [("v", pt)], res, body_ok, decorators=("staticmethod",))
+    if kind == "default":
+        return Method(name, False, [("v", pt)], res, body_ok, defaults={"v": lit_src(under, 5)})
+    if kind == "abstract":
+        return Method(name, False, [("v", pt)], res, [], abstract=True)
+    if kind == "retnested":     # Result[Option[T], str]: first type argument is not the bare newtype
+        return Method(name, False, [("v", pt)], Ty(retname, [Ty("Option", [Ty(T)]), STR]), ["return Ok(Some(%s(v)))" % T])
+    if kind == "retplain":      # -> T
+        return Method(name, False, [("v", pt)], Ty(T), ["return %s(v)" % T])
     if kind == "mismatch":
         wrong = STR if under != "str" else INT
         conv = {"int": "len(v)", "str": "str(v)", "float": "float(len(v))", "list": "[len(v)]"}[under]
@@ -419,6 +443,19 @@ class Gen:
             ms = [hook_method(T, under, "from_underlying", ptype=alias)]
         elif v == "bare-from_":
             ms = [hook_method(T, under, "from_")]
+        elif v.startswith("fu:"):                 # from_underlying of an unusual but accepted / rejected shape
+            ms = [hook_method(T, under, "from_underlying", v.split(":")[1])]
+        elif v == "fu-first+other":
+            ms = [hook_method(T, under, "from_underlying"), hook_method(T, under, "from_value")]
+        elif v == "dup-fu":
+            ms = [hook_method(T, under, "from_underlying"), hook_method(T, under, "from_underlying")]
+        elif v.startswith("name:"):               # one well-shaped method under a given name (prefix boundary)
+            ms = [hook_method(T, under, v.split(":")[1])]
+        elif v.startswith("many:") or v.startswith("many+fu:"):
+            n = int(v.split(":")[1])
+            ms = [hook_method(T, under, "from_k%d" % i) for i in range(n)]
+            if v.startswith("many+fu:"):
+                ms.append(hook_method(T, under, "from_underlying"))
         else:
             raise ValueError(v)
         nt = Newtype(T, under, ms, pub)
@@ -533,6 +570,10 @@ class Gen:
 
 
 MODEL_KINDS = ["field-init", "field-default", "model-method", "class-method", "other-newtype-method", "trait-impl-method"]
+VARIANTS2 = ["fu:zero", "fu:three", "fu:onearg", "fu:async", "fu:decorated", "fu:default", "fu:abstract", "fu:retnested",
+             "fu:retplain", "fu-first+other", "dup-fu", "name:From_x", "name:xfrom_y", "name:fro_m", "name:from_", "name:from__",
+             "name:FROM_X", "many:0", "many:1", "many:2", "many:16", "many:17", "many:64", "many:65", "many+fu:0", "many+fu:1",
+             "many+fu:17", "many+fu:65", "illfu+single:zero", "illfu+single:retnested", "illfu+single:retplain", "ill+ok:three"]
 VARIANTS = ["none", "fu", "single:from_str", "single:from_int", "single:from_value", "fu+other", "two-from", "three-from",
             "illfu+single:two", "illfu+single:recv", "illfu+single:option", "illfu+single:other", "illfu+single:mismatch",
             "illfu:two", "illfu:recv", "illfu:option", "illfu:other", "illfu:mismatch",
